@@ -1,6 +1,183 @@
-(* C28 — property theorems only. *)
-From SwayV Require Import Base.Util Generated.C28Facts C28.Model C28.Step C28.Spec C28.Proofs.
+(* C28 — property theorems only.
+
+   Full statement aimed at (DESIGN.md C28): for every operation of StorageVec, StorageMap, StorageBytes and
+   StorageString, `abs (step s op) = spec_step (abs s) op` with equal outputs, and an operation on one
+   field / key leaves `abs` of every other field / key unchanged, under the hypotheses on sha256 below.
+   Proved here: StorageVec<u64> (every method except store_vec / load_vec / iter), StorageMap with a
+   one-word value type (insert / get / remove / try_insert), the footprint of every StorageMap operation
+   for any value type, and the frame theorems between vector fields and map entries.  NOT proved
+   (validated by the executed histories only): StorageBytes / StorageString, store_vec / load_vec,
+   map values of several words, vectors of multi-word elements — hence the `_partial` names.
+
+   Hypotheses on the hash H (sha256), named in every theorem that needs them:
+     injective on the occurring pre-images `occ`; distinct occurring digests at least CAP = 2^58 slots
+     apart (a vector of up to LMAX = 2^60 u64 elements spans at most CAP slots); every occurring digest
+     at least CAP below 2^256. *)
+From SwayV Require Import Base.Util Generated.C28Facts C28.Model C28.Step C28.Spec C28.StoreLemmas C28.ApiLemmas
+  C28.ListN C28.VecProofs C28.Frame C28.MapProofs C28.HashFrame.
 Open Scope N_scope.
-Theorem C28_layout_constants : c28_sc_words = 4 /\ c28_slot_bytes = 32 /\ c28_sc_word_bytes = 8.
-Proof. exact facts_shape. Qed.
-Print Assumptions C28_layout_constants.
+
+(* storage_api.sw slot arithmetic: a u64 at word offset `off` of `slot` lives in slot + off/4, word off mod 4 *)
+Theorem C28_slot_calculator_u64 : forall slot off,
+  off < LMAX -> slot + off / 4 < W256 ->
+  slot_calculator 8 false slot off = Ok (slot + off / 4, 1, off mod 4).
+Proof. exact slot_calc_u64. Qed.
+Print Assumptions C28_slot_calculator_u64.
+
+(* ... and a w-word value at offset 0 touches only slots within [slot, slot + w) *)
+Theorem C28_slot_calculator_range : forall w isref slot k n p,
+  (1 <= w)%nat -> slot_calculator (8 * N.of_nat w) isref slot 0 = Ok (k, n, p) ->
+  slot <= k /\ k + n <= slot + N.of_nat w.
+Proof. exact slot_calc_range. Qed.
+Print Assumptions C28_slot_calculator_range.
+
+(* read_quads / write_quads of a u64 are a word read / read-modify-write of that slot *)
+Theorem C28_read_write_u64 : forall s slot off v,
+  off < LMAX -> slot + off / 4 < W256 ->
+  read_u64 s slot off = Ok (option_map (wnth (off mod 4)) (sget s (slot + off / 4)))
+  /\ write_u64 s slot off v = Ok (wwrite s slot off v).
+Proof. intros s slot off v Ho Hk. split; [apply read_u64_eq|apply write_u64_eq]; assumption. Qed.
+Print Assumptions C28_read_write_u64.
+
+(* StorageVec<u64> refines the list model: same outputs, abstraction commutes, invariant kept, documented
+   reverts revert, and nothing outside {length slot} U [content base, content base + CAP) changes.
+   Side conditions in terms of the two slots' positions. *)
+Theorem C28_vec_refines_partial : forall (H : list N -> N) (f : N),
+  f < W256 -> hash_b256 H f + CAP <= W256 -> f < hash_b256 H f \/ hash_b256 H f + CAP <= f ->
+  forall (s : store) (o : vop),
+  vec_inv H s f -> abs_len s f + 1 < LMAX -> vop_proved o ->
+  match spec_vec (abs_vec H s f) o with
+  | Some (l', out) =>
+    exists s' mo, vec_step H s f o = Ok (s', mo) /\ abs_vec H s' f = l' /\ vec_inv H s' f
+                  /\ abs_len s' f = len l' /\ (forall so, out = Some so -> mo = so) /\ outside H f s s'
+  | None => vec_step H s f o = Err 1
+  end.
+Proof. exact vec_refines. Qed.
+Print Assumptions C28_vec_refines_partial.
+
+(* the same with the side conditions derived from the hypotheses on the hash, for a field given by name *)
+Theorem C28_vec_refines_hash_partial : forall (H : list N -> N) (occ : list N -> Prop),
+  (forall p q, occ p -> occ q -> H p = H q -> p = q) ->
+  (forall p q, occ p -> occ q -> H p <> H q -> H p + CAP <= H q \/ H q + CAP <= H p) ->
+  (forall p, occ p -> H p + CAP <= W256) ->
+  forall (name : list N) (s : store) (o : vop),
+  vec_occ H occ name ->
+  let f := field_id H name in
+  vec_inv H s f -> abs_len s f + 1 < LMAX -> vop_proved o ->
+  match spec_vec (abs_vec H s f) o with
+  | Some (l', out) =>
+    exists s' mo, vec_step H s f o = Ok (s', mo) /\ abs_vec H s' f = l' /\ vec_inv H s' f
+                  /\ abs_len s' f = len l' /\ (forall so, out = Some so -> mo = so) /\ outside H f s s'
+  | None => vec_step H s f o = Err 1
+  end.
+Proof. exact vec_refines_hash. Qed.
+Print Assumptions C28_vec_refines_hash_partial.
+
+(* StorageMap<K, one-word V> refines the function model on the occurring keys *)
+Theorem C28_map_refines_u64_partial : forall (H : list N -> N) (occ : list N -> Prop),
+  (forall p q, occ p -> occ q -> H p = H q -> p = q) ->
+  (forall p q, occ p -> occ q -> H p <> H q -> H p + CAP <= H q \/ H q + CAP <= H p) ->
+  (forall p, occ p -> H p + CAP <= W256) ->
+  forall (f : N) (s : store) (o : mop),
+  mop_u64 o -> occ (map_preimage (mop_key o) f) ->
+  let '(m', out) := spec_map (abs_map H 1 false s f) o in
+  exists s', map_step H 1 false s f o = Ok (s', out)
+             /\ forall kb', occ (map_preimage kb' f) -> abs_map H 1 false s' f kb' = m' kb'.
+Proof. exact map_u64_refines_hash. Qed.
+Print Assumptions C28_map_refines_u64_partial.
+
+(* every StorageMap operation, for any value type of w words, changes only the w slots of its own entry *)
+Theorem C28_map_footprint : forall H w isref s f o s' out,
+  mop_width_ok w o -> map_step H w isref s f o = Ok (s', out) ->
+  forall j, ~ (map_slot H (mop_key o) f <= j < map_slot H (mop_key o) f + N.of_nat w) -> sget s' j = sget s j.
+Proof. exact map_step_footprint. Qed.
+Print Assumptions C28_map_footprint.
+
+(* domain separation, from the constants regenerated from the source: a compiler-generated field key
+   pre-image (domain byte 0) is never a StorageMap entry pre-image (domain byte 1) *)
+Theorem C28_domain_separation : forall name kb f, field_preimage name <> map_preimage kb f.
+Proof. exact domain_separation. Qed.
+Print Assumptions C28_domain_separation.
+
+(* frame: vector operation vs another vector field *)
+Theorem C28_frame_vec_vec : forall (H : list N -> N) (occ : list N -> Prop),
+  (forall p q, occ p -> occ q -> H p = H q -> p = q) ->
+  (forall p q, occ p -> occ q -> H p <> H q -> H p + CAP <= H q \/ H q + CAP <= H p) ->
+  (forall p, occ p -> H p + CAP <= W256) ->
+  forall (name name2 : list N) (s s' : store),
+  vec_occ H occ name -> vec_occ H occ name2 -> name <> name2 ->
+  outside H (field_id H name) s s' ->
+  abs_len s (field_id H name2) <= LMAX ->
+  abs_len s' (field_id H name2) = abs_len s (field_id H name2)
+  /\ abs_vec H s' (field_id H name2) = abs_vec H s (field_id H name2)
+  /\ (vec_inv H s (field_id H name2) -> vec_inv H s' (field_id H name2)).
+Proof. exact vec_frame_vec. Qed.
+Print Assumptions C28_frame_vec_vec.
+
+(* frame: vector operation vs any map entry *)
+Theorem C28_frame_vec_map : forall (H : list N -> N) (occ : list N -> Prop),
+  (forall p q, occ p -> occ q -> H p = H q -> p = q) ->
+  (forall p q, occ p -> occ q -> H p <> H q -> H p + CAP <= H q \/ H q + CAP <= H p) ->
+  (forall p, occ p -> H p + CAP <= W256) ->
+  forall (name : list N) (s s' : store) (w : nat) (isref : bool) (g : N) (kb : list N),
+  vec_occ H occ name -> occ (map_preimage kb g) -> N.of_nat w <= CAP ->
+  outside H (field_id H name) s s' ->
+  abs_map H w isref s' g kb = abs_map H w isref s g kb.
+Proof. exact vec_frame_map. Qed.
+Print Assumptions C28_frame_vec_map.
+
+(* frame: map operation (any value type) vs any vector field *)
+Theorem C28_frame_map_vec : forall (H : list N -> N) (occ : list N -> Prop),
+  (forall p q, occ p -> occ q -> H p = H q -> p = q) ->
+  (forall p q, occ p -> occ q -> H p <> H q -> H p + CAP <= H q \/ H q + CAP <= H p) ->
+  (forall p, occ p -> H p + CAP <= W256) ->
+  forall (name2 : list N) (w : nat) (isref : bool) (s : store) (f : N) (o : mop) (s' : store) (out : list N),
+  vec_occ H occ name2 -> occ (map_preimage (mop_key o) f) -> N.of_nat w <= CAP -> mop_width_ok w o ->
+  map_step H w isref s f o = Ok (s', out) ->
+  abs_len s (field_id H name2) <= LMAX ->
+  abs_len s' (field_id H name2) = abs_len s (field_id H name2)
+  /\ abs_vec H s' (field_id H name2) = abs_vec H s (field_id H name2)
+  /\ (vec_inv H s (field_id H name2) -> vec_inv H s' (field_id H name2)).
+Proof. exact map_frame_vec. Qed.
+Print Assumptions C28_frame_map_vec.
+
+(* frame: map operation vs any other entry (other key of the same map, or any key of another map) *)
+Theorem C28_frame_map_map : forall (H : list N -> N) (occ : list N -> Prop),
+  (forall p q, occ p -> occ q -> H p = H q -> p = q) ->
+  (forall p q, occ p -> occ q -> H p <> H q -> H p + CAP <= H q \/ H q + CAP <= H p) ->
+  (forall p, occ p -> H p + CAP <= W256) ->
+  forall (w : nat) (isref : bool) (s : store) (f : N) (o : mop) (s' : store) (out : list N)
+         (w' : nat) (isref' : bool) (g : N) (kb' : list N),
+  occ (map_preimage (mop_key o) f) -> occ (map_preimage kb' g) ->
+  map_preimage (mop_key o) f <> map_preimage kb' g ->
+  N.of_nat w <= CAP -> N.of_nat w' <= CAP -> mop_width_ok w o ->
+  map_step H w isref s f o = Ok (s', out) ->
+  abs_map H w' isref' s' g kb' = abs_map H w' isref' s g kb'.
+Proof. exact map_frame_map. Qed.
+Print Assumptions C28_frame_map_map.
+
+(* Non-vacuity.  A toy hash that places the pre-image [b0; ...] at (b0 + 2) * 2^200: hypotheses of
+   C28_vec_refines_partial hold for field 5, and a concrete history behaves as stated. *)
+Definition toyH (p : list N) : N := (hd 0 p + 2) * 2 ^ 200.
+Example C28_example_hyps :
+  5 < W256 /\ hash_b256 toyH 5 + CAP <= W256 /\ (5 < hash_b256 toyH 5 \/ hash_b256 toyH 5 + CAP <= 5).
+Proof. split; [reflexivity|]. split; [vm_compute; discriminate|]. left. reflexivity. Qed.
+Definition run_vec (ops : list vop) : outcome (store * list (list N)) :=
+  fold_left (fun acc o => match acc with
+                          | Ok (s, outs) => match vec_step toyH s 5 o with Ok (s', out) => Ok (s', outs ++ [out]) | Err c => Err c | Panic c => Panic c | OutOfFuel => OutOfFuel end
+                          | e => e end) ops (Ok ([], [])).
+Example C28_example_history :
+  match run_vec [VPush 1; VPush 2; VPush 3; VPush 4; VPush 5; VInsert 1 9; VRemove 0; VSwapRemove 1; VReverse; VLoad; VGet 4; VPop] with
+  | Ok (s, outs) => outs = [[]; []; []; []; []; []; [1]; [2]; []; [4; 3; 5; 9]; [0]; [1; 9]] /\ abs_vec toyH s 5 = [4; 3; 5]
+  | _ => False
+  end.
+Proof. vm_compute. split; reflexivity. Qed.
+Example C28_example_revert : vec_step toyH [] 5 (VSet 0 1) = Err 1.
+Proof. vm_compute. reflexivity. Qed.
+(* a map entry of a 5-word struct occupies two slots; remove reports whether both were set *)
+Example C28_example_map :
+  match map_step toyH 5 true [] 7 (MInsert [0;0;0;0;0;0;0;1] [1;2;3;4;5]) with
+  | Ok (s, _) => map_step toyH 5 true s 7 (MGet [0;0;0;0;0;0;0;1]) = Ok (s, [1;1;2;3;4;5]) /\ length s = 2%nat
+  | _ => False
+  end.
+Proof. vm_compute. split; reflexivity. Qed.
